@@ -39,11 +39,15 @@ RULE = ("Hypothesis rule-based histories (<= 40 steps) of SymbolTable "
         "shadowing, rename_symbol, remove, swap, swap_symbol_properties, "
         "merge/check_for_clashes with symbols_to_skip, attach/detach, "
         "specify_argument_list, shallow/deep_copy, plus References, Calls "
-        "and CodeBlocks placed in the tree) over 5 nested scopes, detached "
+        "and CodeBlocks placed in the tree; a directed rule plants a same-"
+        "name pair of chosen kinds in two tables and merges them) over 5 "
+        "nested scopes, detached "
         "tables and donor routines, names drawn from a pool of case variants "
         "(x/X, tmp/Tmp/TMP, tmp_1/TMP_1, psyir_tmp, ...), 12 symbol kinds "
-        "(data, argument, routine, container, wildcard container, datatype, "
-        "generic, unresolved, imported, common block, ...); non-trivial = "
+        "(data, argument, routine, imported/unresolved routine, container, "
+        "wildcard container, datatype, generic, unresolved, imported, "
+        "common block); failures are minimised by count-bounded step "
+        "removal, not by Hypothesis; non-trivial = "
         "history with >= 4 successful mutations including >= 1 successful "
         "rename or merge and >= 1 attempt to introduce a name that differs "
         "only in case from an existing one; distinct = hash of the step list")
@@ -1963,7 +1967,32 @@ def _cls_merge_skip_import_atomic(case):
                for d in info.get("skip", []))
 
 
+def _cls_clash_check_specialise(case):
+    """check_for_clashes specialises a pair of unresolved symbols named
+    like a Fortran intrinsic to IntrinsicSymbol one after the other; when
+    the second one is a DataSymbol, specialise() raises TypeError after the
+    first symbol has already changed class."""
+    from psyclone.psyir.nodes import IntrinsicCall
+    info = case.get("info", {})
+    if case.get("bucket") not in ("atomic:merge",
+                                  "atomic:check_for_clashes") or \
+            info.get("raised") != "TypeError":
+        return False
+    mine = {d["name"].lower(): d for d in info.get("self_syms", [])}
+    for desc in info.get("other_syms", []):
+        key = desc["name"].lower()
+        if key not in mine or \
+                key.upper() not in IntrinsicCall.Intrinsic.__members__:
+            continue
+        pair = (mine[key], desc)
+        if all(d["iface"] == "UnresolvedInterface" for d in pair) and \
+                any(d["cls"] == "DataSymbol" for d in pair):
+            return True
+    return False
+
+
 CLASSIFIERS = {
+    "clash_check_specialise": _cls_clash_check_specialise,
     "swap_props_uppercase": _cls_swap_props_uppercase,
     "merge_skip_container": _cls_merge_skip_container,
     "merge_skip_import_atomic": _cls_merge_skip_import_atomic,
